@@ -21,6 +21,9 @@ type lifecycleOpts struct {
 	observer   func(w *world) // called at every quiescent point after the commit oracle
 	maxVirtual time.Duration
 	noOperator bool
+	truthfulGhosts bool // operator-written entries carry true registration / read-only change times and never change tokens
+	longAdvances   bool // include multi-minute clock advances
+	noStalls       bool // never advance the clock while a task is parked (writes take no virtual time)
 	ghostBudget int // number of ghost operations per run (default 10)
 	ghostIDs    int // number of distinct ghost instances (default 4)
 	ghosts     bool // the operator also writes entries of instances that are not simulated (any state, incl. LEFT with tokens; chosen heartbeat ages)
@@ -68,6 +71,7 @@ func runLifecycle(s *sim.Sim, o lifecycleOpts) *world {
 	if o.ghostBudget > 0 {
 		budget["ghost"] = o.ghostBudget
 	}
+	w.truthfulGhosts = o.truthfulGhosts
 	w.ghostIDs = 4
 	if o.ghostIDs > 0 {
 		w.ghostIDs = o.ghostIDs
@@ -244,8 +248,14 @@ func runLifecycle(s *sim.Sim, o lifecycleOpts) *world {
 		if len(names) > 0 {
 			advW = 1 // advancing while tasks are parked stalls them
 		}
+		if o.noStalls && len(names) > 0 {
+			advW = 0
+		}
 		alts = append(alts, alt{"advance", advW, func() {
 			d := sim.Pick(s, "advance", time.Second, 300*time.Millisecond, 1300*time.Millisecond, 2900*time.Millisecond, 5*time.Second, 15*time.Second, 59*time.Second, 61*time.Second, 2*time.Minute+time.Second, -1, -2)
+			if o.longAdvances && s.Chance(0.3, "long-advance") {
+				d = sim.Pick(s, "long", 45*time.Second, 3*time.Minute, 9*time.Minute)
+			}
 			if d < 0 {
 				// land exactly on a whole second (heartbeat timestamps are whole seconds: ages equal to the
 				// timeout, one second less, one second more)
@@ -542,7 +552,6 @@ func (w *world) ghostOperation() {
 	}
 	zone := zones[s.Choose(len(zones), "ghost-zone")]
 	kind := s.Choose(4, "ghost-op") // 0,1 add/replace, 2 refresh state/heartbeat, 3 remove
-	now := time.Now()
 	ages := []time.Duration{0, 59 * time.Second, 60 * time.Second, 61 * time.Second, 10 * time.Minute, 30 * time.Second, 0, time.Second, 2 * time.Second}
 	age := ages[s.Choose(len(ages), "ghost-age")]
 	state := []ring.InstanceState{ring.ACTIVE, ring.LEFT, ring.LEAVING, ring.JOINING, ring.PENDING, ring.ACTIVE, ring.ACTIVE, ring.ACTIVE}[s.Choose(8, "ghost-state")]
@@ -570,6 +579,7 @@ func (w *world) ghostOperation() {
 	s.Fault("operator-ghost-entry")
 	s.Go("operator-ghost", func() {
 		_ = w.opKV.CAS(context.Background(), ringKey, func(in interface{}) (interface{}, bool, error) {
+			now := time.Now() // the time of the write, not of the decision to write
 			d := ring.GetOrCreateRingDesc(in)
 			if d.Ingesters == nil {
 				d.Ingesters = map[string]ring.InstanceDesc{}
@@ -584,12 +594,31 @@ func (w *world) ghostOperation() {
 			case kind == 2 && ok:
 				e.State = state
 				e.Timestamp = now.Add(-age).Unix()
+				if w.truthfulGhosts {
+					e.Timestamp = now.Unix()
+					if readOnly != e.ReadOnly {
+						e.ReadOnly, e.ReadOnlyUpdatedTimestamp = readOnly, now.Unix()
+					}
+				}
+				d.Ingesters[id] = e
+			case ok && w.truthfulGhosts:
+				// a registered instance never changes its tokens or registration time in this mode
+				e.Timestamp = now.Unix()
+				if readOnly != e.ReadOnly {
+					e.ReadOnly, e.ReadOnlyUpdatedTimestamp = readOnly, now.Unix()
+				}
 				d.Ingesters[id] = e
 			default:
 				e = ring.InstanceDesc{Id: id, Addr: id + ":1", Zone: zone, State: state, Tokens: tokens,
 					Timestamp: now.Add(-age).Unix(), RegisteredTimestamp: now.Add(-age - time.Minute).Unix()}
 				if readOnly {
 					e.ReadOnly, e.ReadOnlyUpdatedTimestamp = true, now.Add(-age/2).Unix()
+				}
+				if w.truthfulGhosts {
+					e.State, e.Timestamp, e.RegisteredTimestamp = ring.ACTIVE, now.Unix(), now.Unix()
+					if readOnly {
+						e.ReadOnlyUpdatedTimestamp = now.Unix()
+					}
 				}
 				d.Ingesters[id] = e
 			}
